@@ -57,6 +57,7 @@ inductive Sk
 deriving DecidableEq, Repr
 
 def skO : OutEv.Ev → Option Sk
+  | .testRun _ _ => none
   | .testsStarted => some .testsStarted
   | .groupStarted t => some (.groupStarted t)
   | .testStarted t => some (.testStarted t)
